@@ -39,4 +39,222 @@ def countOrderNat (x : Nat) : Nat := fls (x - 1)
 /-- `cds_lfht_get_count_order_u32` (static; used by `check_resize` only) -/
 def countOrderU32 (x : Nat) : Int := if x % 2^32 = 0 then -1 else (fls (x % 2^32 - 1) : Nat)
 
+/-! ## Proofs -/
+
+theorem revBits_lt (n v : Nat) : revBits n v < 2^n := by
+  induction n generalizing v with
+  | zero => simp [revBits]
+  | succ n ih =>
+    simp only [revBits]
+    have := ih (v/2)
+    have h2 : v % 2 < 2 := Nat.mod_lt _ (by decide)
+    have : v % 2 * 2^n ≤ 1 * 2^n := Nat.mul_le_mul_right _ (by omega)
+    rw [Nat.pow_succ]; omega
+
+theorem revBits_split (k m v : Nat) :
+    revBits (k+m) v = revBits k (v % 2^k) * 2^m + revBits m (v / 2^k) := by
+  induction k generalizing v with
+  | zero => simp [revBits]
+  | succ k ih =>
+    have e : k + 1 + m = (k + m) + 1 := by omega
+    rw [e]
+    simp only [revBits]
+    rw [ih]
+    have h1 : v % 2 ^ (k+1) % 2 = v % 2 := by
+      rw [Nat.pow_succ, Nat.mul_comm]; exact Nat.mod_mul_right_mod v 2 (2^k)
+    have h2 : v % 2 ^ (k+1) / 2 = v / 2 % 2^k := by
+      rw [Nat.pow_succ, Nat.mul_comm]; exact Nat.mod_mul_right_div_self v 2 (2^k)
+    have h3 : v / 2 / 2^k = v / 2^(k+1) := by
+      rw [Nat.div_div_eq_div_mul, Nat.pow_succ, Nat.mul_comm]
+    rw [h1, h2, h3, Nat.add_mul, Nat.pow_add, Nat.mul_assoc]; omega
+
+theorem revBits_one (v : Nat) : revBits 1 v = v % 2 := by simp [revBits]
+
+theorem revBits_invol (n v : Nat) (h : v < 2^n) : revBits n (revBits n v) = v := by
+  induction n generalizing v with
+  | zero => simp at h; simp [revBits, h]
+  | succ n ih =>
+    have hw : revBits (n+1) v = (v % 2) * 2^n + revBits n (v/2) := rfl
+    have hlt := revBits_lt n (v/2)
+    rw [revBits_split n 1, hw]
+    have a1 : (v % 2 * 2^n + revBits n (v/2)) % 2^n = revBits n (v/2) := by
+      rw [Nat.add_comm, Nat.add_mul_mod_self_right, Nat.mod_eq_of_lt hlt]
+    have a2 : (v % 2 * 2^n + revBits n (v/2)) / 2^n = v % 2 := by
+      rw [Nat.add_comm, Nat.add_mul_div_right _ _ (Nat.pow_pos (by decide)), Nat.div_eq_of_lt hlt]; simp
+    rw [a1, a2, ih _ (by rw [Nat.pow_succ] at h; omega), revBits_one]; simp; omega
+
+/-- the table compiled into the library (regenerated from the source each run) is the byte reversal -/
+theorem bitrev_table_correct : ∀ i, i < 256 → Gen.BitReverseTable256[i]! = rev8 i := by
+  decide +kernel
+
+theorem revBits_mod (n v : Nat) : revBits n (v % 2^n) = revBits n v := by
+  have := revBits_split n 0 v
+  simp [revBits] at this; exact this.symm
+
+theorem bitReverseU8_eq (v : Nat) : bitReverseU8 v = revBits 8 v := by
+  unfold bitReverseU8
+  rw [bitrev_table_correct _ (Nat.mod_lt _ (by decide)), rev8]
+  exact revBits_mod 8 v
+
+private theorem or_add (i a y : Nat) (hy : y < 2^i) : (a * 2^i) ||| y = a * 2^i + y := by
+  rw [Nat.mul_comm]; exact (Nat.two_pow_add_eq_or_of_lt hy a).symm
+
+/-- the C composition from the byte table is the 64-bit reversal (of the low 64 bits) -/
+theorem bitReverse64_eq (v : Nat) : bitReverse64 v = revBits 64 v := by
+  unfold bitReverse64
+  simp only [bitReverseU8_eq, Nat.shiftLeft_eq, Nat.shiftRight_eq_div_pow]
+  have s1 := revBits_split 8 56 v
+  have s2 := revBits_split 8 48 (v / 2^8)
+  have s3 := revBits_split 8 40 (v / 2^8 / 2^8)
+  have s4 := revBits_split 8 32 (v / 2^8 / 2^8 / 2^8)
+  have s5 := revBits_split 8 24 (v / 2^8 / 2^8 / 2^8 / 2^8)
+  have s6 := revBits_split 8 16 (v / 2^8 / 2^8 / 2^8 / 2^8 / 2^8)
+  have s7 := revBits_split 8 8 (v / 2^8 / 2^8 / 2^8 / 2^8 / 2^8 / 2^8)
+  simp only [revBits_mod, Nat.div_div_eq_div_mul] at s1 s2 s3 s4 s5 s6 s7
+  have l0 := revBits_lt 8 v
+  have l1 := revBits_lt 8 (v / 2^8)
+  have l2 := revBits_lt 8 (v / 2^16)
+  have l3 := revBits_lt 8 (v / 2^24)
+  have l4 := revBits_lt 8 (v / 2^32)
+  have l5 := revBits_lt 8 (v / 2^40)
+  have l6 := revBits_lt 8 (v / 2^48)
+  have l7 := revBits_lt 8 (v / 2^56)
+  generalize revBits 8 v = r0 at *
+  generalize revBits 8 (v / 2^8) = r1 at *
+  generalize revBits 8 (v / 2^16) = r2 at *
+  generalize revBits 8 (v / 2^24) = r3 at *
+  generalize revBits 8 (v / 2^32) = r4 at *
+  generalize revBits 8 (v / 2^40) = r5 at *
+  generalize revBits 8 (v / 2^48) = r6 at *
+  generalize revBits 8 (v / 2^56) = r7 at *
+  have st : ∀ (X r s : Nat), 2^(s+8) ∣ X → r < 2^8 → X ||| r * 2^s = X + r * 2^s := by
+    intro X r s ⟨a, ha⟩ hr
+    subst ha
+    rw [Nat.mul_comm (2^(s+8)) a]
+    apply or_add
+    rw [Nat.pow_add, Nat.mul_comm (2^s)]
+    exact Nat.mul_lt_mul_of_pos_right hr (Nat.pow_pos (by decide))
+  have e7 : r7 = r7 * 2^0 := by simp
+  rw [e7, st _ r1 48 (by omega) l1, st _ r2 40 (by omega) l2, st _ r3 32 (by omega) l3,
+    st _ r4 24 (by omega) l4, st _ r5 16 (by omega) l5, st _ r6 8 (by omega) l6, st _ r7 0 (by omega) l7]
+  simp only [Nat.reduceAdd] at s1 s2 s3 s4 s5 s6 s7
+  omega
+
+theorem revBits_zero (n : Nat) : revBits n 0 = 0 := by
+  induction n with
+  | zero => rfl
+  | succ n ih => simp [revBits, ih]
+
+theorem revBits_one_arg (n : Nat) : revBits (n+1) 1 = 2^n := by
+  simp [revBits, revBits_zero]
+
+theorem revBits_split_exact (n k h : Nat) (hk : k ≤ n) :
+    revBits n h = revBits n (h % 2^k) + revBits (n-k) (h / 2^k) := by
+  obtain ⟨m, rfl⟩ : ∃ m, n = k + m := ⟨n - k, by omega⟩
+  have e : k + m - k = m := by omega
+  rw [e, revBits_split k m h, revBits_split k m (h % 2^k), Nat.mod_mod,
+    Nat.div_eq_of_lt (Nat.mod_lt _ (Nat.pow_pos (by decide))), revBits_zero]
+  simp
+
+theorem bitrev64_lt (v : Nat) : bitReverse64 v < 2^64 := by
+  rw [bitReverse64_eq]; exact revBits_lt 64 v
+
+theorem bitrev64_involutive (v : Nat) (h : v < 2^64) : bitReverse64 (bitReverse64 v) = v := by
+  rw [bitReverse64_eq, bitReverse64_eq]; exact revBits_invol 64 v h
+
+theorem bitrev64_injective {a b : Nat} (ha : a < 2^64) (hb : b < 2^64)
+    (h : bitReverse64 a = bitReverse64 b) : a = b := by
+  rw [← bitrev64_involutive a ha, ← bitrev64_involutive b hb, h]
+
+/-- exact form of the split-order fact: the reversed hash is the reversed bucket index plus an
+offset that only depends on the bits above the bucket mask -/
+theorem bitrev_split_exact (k h : Nat) (hk : k ≤ 64) :
+    bitReverse64 h = bitReverse64 (h % 2^k) + revBits (64-k) (h / 2^k) := by
+  rw [bitReverse64_eq, bitReverse64_eq]; exact revBits_split_exact 64 k h hk
+
+theorem mask_eq_mod (h k : Nat) : h &&& (2^k - 1) = h % 2^k := Nat.and_two_pow_sub_one_eq_mod h k
+
+theorem bitrev_bucket_le (k h : Nat) (hk : k ≤ 64) :
+    bitReverse64 (h &&& (2^k - 1)) ≤ bitReverse64 h := by
+  rw [mask_eq_mod, bitrev_split_exact k h hk]; omega
+
+theorem bitrev_parent_lt (i j : Nat) (hi : i < 64) (h1 : 2^i ≤ j) (h2 : j < 2^(i+1)) :
+    bitReverse64 (j - 2^i) < bitReverse64 j := by
+  have hm : j % 2^i = j - 2^i := by
+    have : j = (j - 2^i) + 2^i := by omega
+    rw [Nat.pow_succ] at h2
+    conv => lhs; rw [this]
+    rw [Nat.add_mod_right, Nat.mod_eq_of_lt (by omega)]
+  have hd : j / 2^i = 1 := by
+    rw [Nat.pow_succ] at h2
+    have : 0 < 2^i := Nat.pow_pos (by decide)
+    apply Nat.div_eq_of_lt_le <;> omega
+  rw [bitrev_split_exact i j (by omega), hm, hd]
+  obtain ⟨m, hm'⟩ : ∃ m, 64 - i = m + 1 := ⟨63 - i, by omega⟩
+  rw [hm', revBits_one_arg]
+  have : 0 < 2^m := Nat.pow_pos (by decide)
+  omega
+
+theorem fls_zero : fls 0 = 0 := rfl
+
+theorem fls_spec (x : Nat) (hx : x ≠ 0) : 2^(fls x - 1) ≤ x ∧ x < 2^(fls x) := by
+  simp only [fls, hx, if_false, Nat.add_sub_cancel]
+  exact ⟨Nat.log2_self_le hx, Nat.lt_log2_self⟩
+
+theorem fls_le_iff (x k : Nat) : fls x ≤ k ↔ x < 2^k := by
+  by_cases hx : x = 0
+  · subst hx; simp [fls, Nat.pow_pos]
+  · simp only [fls, hx, if_false]
+    rw [← Nat.log2_lt hx]; omega
+
+/-- `cds_lfht_get_count_order_ulong(x)`: −1 for 0, else the minimal `order` with `x ≤ 2^order` -/
+theorem count_order_spec (x : Nat) :
+    (x = 0 → countOrder x = -1) ∧
+    (x ≠ 0 → countOrder x = (countOrderNat x : Nat) ∧ x ≤ 2^(countOrderNat x) ∧
+       ∀ o, x ≤ 2^o → countOrderNat x ≤ o) := by
+  refine ⟨fun h => by simp [countOrder, h], fun hx => ⟨by simp [countOrder, countOrderNat, hx], ?_, ?_⟩⟩
+  · have := (fls_le_iff (x-1) (countOrderNat x)).1 (Nat.le_refl _)
+    omega
+  · intro o ho
+    exact (fls_le_iff (x-1) o).2 (by omega)
+
+theorem countOrderNat_pow2 (k : Nat) : countOrderNat (2^k) = k := by
+  have h := (count_order_spec (2^k)).2 (Nat.ne_of_gt (Nat.pow_pos (by decide)))
+  have h1 := h.2.2 k (Nat.le_refl _)
+  have h2 := h.2.1
+  have := (Nat.pow_le_pow_iff_right (a := 2) (by decide)).1 h2
+  omega
+
+theorem fls_lt_64 (x : Nat) (h : x < 2^64) : fls x ≤ 64 := (fls_le_iff x 64).2 h
+
+/-- the C power-of-two test `x && !(x & (x - 1))` -/
+def isPow2C (x : Nat) : Bool := x != 0 && (x &&& (x - 1)) == 0
+
+theorem isPow2C_iff (x : Nat) : isPow2C x = true ↔ ∃ k, x = 2^k := by
+  simp only [isPow2C, Bool.and_eq_true, bne_iff_ne, ne_eq, beq_iff_eq]
+  constructor
+  · rintro ⟨hx, ha⟩
+    refine ⟨x.log2, ?_⟩
+    have h1 := Nat.log2_self_le hx
+    have h2 := @Nat.lt_log2_self x
+    by_cases he : x = 2^x.log2
+    · exact he
+    · exfalso
+      have t1 : x.testBit x.log2 = true := by
+        rw [Nat.testBit_eq_decide_div_mod_eq]
+        have : x / 2^x.log2 = 1 := by
+          apply Nat.div_eq_of_lt_le <;> (rw [Nat.pow_succ] at h2; omega)
+        simp [this]
+      have t2 : (x-1).testBit x.log2 = true := by
+        rw [Nat.testBit_eq_decide_div_mod_eq]
+        have : (x-1) / 2^x.log2 = 1 := by
+          apply Nat.div_eq_of_lt_le <;> (rw [Nat.pow_succ] at h2; omega)
+        simp [this]
+      have := Nat.testBit_and x (x-1) x.log2
+      rw [ha, t1, t2] at this
+      simp at this
+  · rintro ⟨k, rfl⟩
+    refine ⟨Nat.ne_of_gt (Nat.pow_pos (by decide)), ?_⟩
+    rw [Nat.and_two_pow_sub_one_eq_mod]; simp
+
 end UrcuVerif.Lfht
